@@ -415,6 +415,9 @@ def big_text(s, rng):
     k = rng.randrange(len(s) + 1)
     for L in (65535, 65536, 70000):
         out.append({"pre": s[:k], "rep": ["a", L], "post": s[k:]})
+    # long runs of characters that mean something to a parser or matcher (wildcards, escapes, separators)
+    for c, L in (("?", 12000), ("*", 12000), ("?*", 6000), ("%", 20000), ("\\", 20000), (" a", 20000)):
+        out.append({"pre": s[:k], "rep": [c, L], "post": s[k:]})
     return out
 
 
@@ -675,6 +678,13 @@ def generate(seed, per_seed, thorough, signed=None):
     for ep in ["html_strict", "html_compat", "html_reply", "html_plain", "sanitize_html", "remove_html_reply_fallback"]:
         for d, a in deep_html(21800):
             push(ep, [a], "html nesting depth %d" % d)
+    # bundled replacements nested in bundled replacements (unsigned.m.relations.m.replace): each level is parsed by a fresh JSON
+    # deserializer, so the recursion limit of one document does not bound the nesting
+    head = '{"type":"m.room.message","event_id":"$e:example.org","sender":"%s","origin_server_ts":1700000000000,"content":{"msgtype":"m.text","body":"b"}' % USER
+    for n in (50, 300, 1000, 3000):
+        arg = {"rep": [head + ',"unsigned":{"m.relations":{"m.replace":', n], "mid": head + "}", "close": "}}}"}
+        push("any_sync_timeline", [arg], "nested bundled replacements depth %d" % n)
+        push("raw_event", [arg], "nested bundled replacements depth %d" % n)
     # stacked mutations (two or three at once) on random seeds
     allseeds = [(ep, s) for ep, lst in S.items() for s in lst]
     for _ in range(15000 if thorough else 600):
